@@ -14,7 +14,7 @@ EXPLANATION = (
     "the Difficulty's mods (R2); in every switch on a GameMode value each arm mentions only its own mode (R3); the "
     "sibling entries of one mode apply the same &mut Beatmap preprocessors under the same guards (R4); "
     "TryFrom<OsuPerformance> forwards difficulty/acc/misses/combo/hit results per table and try_convert_map uses "
-    "convert_ref/convert_mut with the same (mode, mods) (R5). Decides the code-shape clauses only; equality of the "
+    "convert_ref/convert_mut with the same (mode, mods) (R5); every converter call inside the crate that takes &GameMods is handed mods that come from its caller — a parameter or Difficulty::get_mods(..) — never a constant (R6: an early conversion with default mods is final and swallows the key mods set later). Decides the code-shape clauses only; equality of the "
     "numbers follows from them but is not itself computed.")
 
 BM = 'model::beatmap::Beatmap'
@@ -630,6 +630,41 @@ def run(ctx):
     r2_r4(ctx, F)
     r3(ctx, F)
     r5(ctx, F)
+    r6_conversion_mods(ctx, F)
     ctx.not_decided('numerical equality of results between the converted-map path and the direct path (follows from the '
                     'structural clauses, not computed)')
     ctx.assume('rosu_map::section::general::GameMode has exactly the four variants Osu/Taiko/Catch/Mania')
+
+
+# ---- R6: no conversion inside the crate decides the mods by itself
+def r6_conversion_mods(ctx, F):
+    """Key mods are consumed BY the mania conversion; a map converted early with constant mods is final (converting a convert is the identity), so the
+    mods the caller sets later are lost.  Every call of a converter that takes `&GameMods` passes mods that come from the caller: a parameter (or a
+    field of one) or Difficulty::get_mods(..) — never a constant or a default."""
+    n = 0
+    for fn in F.fns:
+        P = None
+        for bi, t in fn.calls():
+            f = t['func']
+            if not f.get('local'):
+                continue
+            g = F.fn(f.get('path') or '')
+            if g is None or f.get('name') not in ('convert_ref', 'convert_mut', 'convert', 'try_convert', 'try_convert_map'):
+                continue
+            idx = [i for i, inp in enumerate(g.j.get('inputs') or []) if 'GameMods' in (inp.get('s') or '')]
+            if not idx:
+                continue
+            P = P or prov.prov_of(fn)
+            args = P.call_args(bi)
+            for i in idx:
+                if i >= len(args):
+                    continue
+                n += 1
+                a = prov.strip(args[i], names=prov.TRANSPARENT_NAMES - {'get_mods'})
+                ok = as_param_path(a) is not None or (a[0] == 'call' and prov.callee(a) == entries.GET_MODS and as_param_path(a[2][0]) is not None)
+                if not ok and a[0] == 'phi':
+                    ok = all(as_param_path(x) is not None for x in a[1])
+                ctx.require(ok, 'C07-R6', 'mods:%s:%s' % (fn.path, f.get('name')), '%s calls %s with the caller\'s mods (%s)' % (fn.path, f.get('name'), prov.show(a, maxdepth=3)[:60]), fn.where(t.get('ln')),
+                            bad='%s converts a map with mods `%s` of its own choosing: the conversion consumes the key mods (mania) and a converted map is final, so the mods the user '
+                                'sets afterwards are ignored — calculating on this map no longer equals calculating on the explicitly converted map' % (fn.path, prov.show(a, maxdepth=4)[:120]))
+    ctx.floor('C07-R6', n, 8, 'converter calls taking mods')
